@@ -601,3 +601,36 @@ pub fn g_underpromo(rng: &mut Rng) -> Pos {
         return if rng.chance(1, 2) { mirror(&p) } else { p };
     }
 }
+
+/// A long natural game (up to `max_plies`): captures are rare so the material lasts, and before the
+/// halfmove clock reaches 140 a pawn move or capture is forced (so the game stays legal under the
+/// 75-move rule). Ends early when no such move exists or the game is over.
+pub fn long_game(start: &Pos, rng: &mut Rng, max_plies: usize) -> (Vec<Pos>, Vec<Mv>) {
+    let mut ps = vec![start.clone()];
+    let mut ms = vec![];
+    let mut cur = start.clone();
+    for _ in 0..max_plies {
+        let legal = cur.legal_moves();
+        if legal.is_empty() || cur.piece_count() <= 2 {
+            break;
+        }
+        let irreversible: Vec<&Mv> = legal.iter().filter(|m| cur.is_capture(m) || kind(cur.sq[m.from as usize]) == P).collect();
+        let m = if cur.half >= 130 {
+            if irreversible.is_empty() {
+                break;
+            }
+            **rng.pick(&irreversible)
+        } else {
+            let quiet: Vec<&Mv> = legal.iter().filter(|m| !cur.is_capture(m) && kind(cur.sq[m.from as usize]) != P).collect();
+            if !quiet.is_empty() && rng.chance(92, 100) {
+                **rng.pick(&quiet)
+            } else {
+                *rng.pick(&legal)
+            }
+        };
+        cur = cur.make(&m);
+        ms.push(m);
+        ps.push(cur.clone());
+    }
+    (ps, ms)
+}
